@@ -18,8 +18,7 @@ TRUSTED = ['the clock (irclib.time.time), the composite outFilter chain (any fun
            'they run in the differential test, where an exception in them would show up as a lost message']
 ASSUMPTIONS = ['a message whose line has no UTF-8 form (lone surrogate) cannot be sent at all: that takeMsg discards it (UnicodeEncodeError from _truncateMsg behind the firewall, since the fix of C06.F19) is not counted as a loss; the oracle accepts this only when the message, as the filters left it, really cannot be encoded, and demands that nothing unencodable is ever handed to the driver',
                'world.testing/log.testing off; each queued IrcMsg is a fresh object; supybot.protocols.irc.umodes empty',
-               'die() before the end of MOTD (afterConnect false) closes the driver at once by design: the drain clause is '
-               'checked for die() issued after 376/422 only',
+               'die() before the end of MOTD (afterConnect false) closes the driver at once by design; every other kill of the driver (by takeMsg, by die() after 376/422, by reset) is checked: nothing accepted may then be waiting in the fastqueue or the queue',
                'a history ends when driver.die() has been called']
 LEVEL_TEXT = ('Coq theorems over an executable Gallina model of IrcMsgQueue and Irc.queueMsg/sendMsg/takeMsg/die/reset (clock, filter chain '
               'and settings as inputs), for all histories: multiset ledger accepted = delivered + dropped-by-filter + flushed-by-reset + pending '
@@ -365,9 +364,13 @@ def oracle(case, facts):
                     jl = (not b[1] and not b[2] and head.command == 'JOIN' and not (f['lastJoin'] + jlimit <= f['now']))
                     if not thr and not jl:
                         out.append(('stall', 'op %d: takeMsg returned None although %s was eligible' % (i, head.command)))
-            if f['died'] and die_asked_connected and flat_after:
-                out.append(('drain', 'op %d: driver.die() with %d message(s) still pending: %s'
-                            % (i, len(flat_after), ' '.join(m.command for m in flat_after))))
+        # drain before close: whenever the driver is killed -- by takeMsg, by die() itself, by anything -- on a connection
+        # that is past the end of MOTD, nothing accepted may still be waiting in the fastqueue or in the queue
+        # (by design die() before the end of MOTD closes at once; reset() has flushed before it kills)
+        if f.get('died') and flat_after and not (code == 3 and not f['afterConnect']):
+            out.append(('drain', 'op %d: %s killed the driver with %d accepted message(s) never handed to it: %s (fastqueue %d, queue %d)'
+                        % (i, {2: 'takeMsg()', 3: 'die() after the end of MOTD', 4: 'reset()'}.get(code, 'op %d' % code), len(flat_after),
+                           ' '.join(m.command for m in flat_after), len(f['after'][0]), len(flat_after) - len(f['after'][0]))))
         # eventual delivery: a steady-polling tail (takeMsg once per virtual second, nothing new queued, bot alive)
         # that is long enough must leave nothing pending of what had been accepted before it
         tail = case.get('tail')
@@ -541,6 +544,41 @@ def gen_tail_case(rng, hostile):
     return add_tail(c, T)
 
 
+def gen_die_case(rng):
+    """die() on a connected bot with (fastqueue, queue) = (non-empty, empty) / (non-empty, non-empty) / (empty, non-empty) / (empty, empty),
+    then polls"""
+    cfg = [rng.choice([0, 0, 1, 2]), rng.choice([0, 0, 0, 3]), int(rng.random() < 0.2), int(rng.random() < 0.8), rng.choice([3, 120]), int(rng.random() < 0.1)]
+    T = rng.choice([1, 10])
+    ops = [[4, T]]
+    shape = rng.randrange(4)
+    drain_first = shape >= 2 or rng.random() < 0.5
+    if drain_first:
+        for _ in range(4 + cfg[5]):
+            T += 1
+            ops.append([2, T])
+    ops.append([5])
+    if rng.random() < 0.3:
+        T += 1
+        ops.append([2, T])
+    nf = rng.randint(1, 3) if shape in (0, 1) else 0
+    nq = rng.randint(1, 4) if shape in (1, 2) else 0
+    todo = [1] * nf + [0] * nq
+    rng.shuffle(todo)
+    for code in todo:
+        m = gen_msg(rng, 0, False, T)
+        if code == 1:
+            m[1] = rng.choice(['PONG', 'MODE', 'PRIVMSG', 'NICK'])
+        ops.append([code, m])
+    ops.append([3])
+    for _ in range(rng.randint(0, 3 * (nf + nq) + 6)):
+        T += rng.choice([1, 1, 2, 3])
+        ops.append([2, T])
+    for i, o in enumerate(ops):
+        if o[0] in (0, 1):
+            o[1][0] = i
+    return {'cfg': cfg, 'ops': ops}
+
+
 def M(mid, cmd, key=0, act=0, dt=0, bad=0):
     return [mid, cmd, key, act, dt, bad]
 
@@ -579,6 +617,11 @@ CORPUS = [
                                           [1, M(8, 'PONG', 1, 0, 0, 1)], [0, M(9, 'MODE', 1, 1, 0, 1)], [0, M(10, 'JOIN', 2, 0, 0, 1)], [0, M(11, 'NOTICE', 3, 3, 1, 1)],
                                           [2, 5], [2, 7], [2, 9], [2, 11], [2, 13], [2, 15], [2, 17], [3], [2, 19], [2, 21]]},
     {'cfg': [0, 0, 0, 1, 120, 0], 'ops': [[4, 1], [2, 2], [2, 3], [2, 4], [5], [0, M(5, 'PRIVMSG', 0, 0, 0, 1)], [3], [2, 6], [2, 7]]},
+    # die() after 376 with: only the fastqueue non-empty (a PONG just sendMsg-ed) / both / only the queue; everything must still be sent
+    {'cfg': [1, 0, 0, 1, 120, 0], 'ops': [[4, 1], [2, 2], [2, 3], [2, 4], [5], [1, M(5, 'PONG', 0)], [3], [2, 6], [2, 7]]},
+    {'cfg': [1, 0, 0, 1, 120, 0], 'ops': [[4, 1], [2, 2], [2, 3], [2, 4], [5], [1, M(5, 'PONG', 0)], [0, M(6, 'PRIVMSG', 0)], [3], [2, 6], [2, 7], [2, 9], [2, 10]]},
+    {'cfg': [1, 0, 0, 1, 120, 0], 'ops': [[4, 1], [2, 2], [2, 3], [2, 4], [5], [0, M(5, 'PRIVMSG', 0)], [3], [2, 6], [2, 7]]},
+    {'cfg': [1, 0, 0, 1, 120, 0], 'ops': [[4, 1], [5], [3], [2, 2], [2, 3], [2, 4], [2, 5]]},
     # die before connect; reset while zombie
     {'cfg': [1, 0, 0, 1, 120, 0], 'ops': [[4, 1], [0, M(1, 'PRIVMSG', 0)], [3]]},
     {'cfg': [1, 0, 0, 1, 120, 0], 'ops': [[4, 1], [5], [0, M(2, 'PRIVMSG', 0)], [3], [4, 3]]},
@@ -646,6 +689,8 @@ def run(ctx):
         cases.append((gen_case(rng, False), 'structured'))
     for _ in range(ctx.n(700)):
         cases.append((gen_case(rng, True), 'hostile'))
+    for _ in range(ctx.n(200)):
+        cases.append((gen_die_case(rng), 'die-after-motd'))
     for _ in range(ctx.n(200)):
         cases.append((gen_join_tail(rng), 'join-rate-polling-tail'))
     for _ in range(ctx.n(150)):
